@@ -350,8 +350,11 @@ theorem C15_model_meets_spec (ls0 : List LState) (h : List (Req × List (Bool ×
             rw [hflt]; simp [refreshOne, hu]
           have hne : (l'.flt.checksum == l.flt.checksum) = false := by
             rw [hflt']; simpa using hsame
+          obtain ⟨_, _, fx3, fx4⟩ := C15_normal_form_fixed_point data hok
+          rw [hout, hcnt] at fx3
+          rw [hout, hcrc] at fx4
           simp only [obsOf, hne, Bool.false_eq_true, if_false]
-          simp [hflt', hout, hcnt, hcrc]
+          simp [hflt', hout, hcnt, hcrc, fx3, fx4]
 
 /-! ### set_url (not a refresh: what the code guarantees there) -/
 
